@@ -364,21 +364,14 @@ func (m *Message) ReadFrom(r io.Reader) error {
 }
 
 func readSection(reader *bufio.Reader, readN int) ([]byte, error) {
-	buf := make([]byte, readN)
-
-	var err error
-	n := 0
-	for n < readN {
-		m, err := reader.Read(buf[n:])
-		if err != nil {
-			break
-		}
-		n += m
+	if readN < 0 {
+		return nil, errors.New("Negative section size")
 	}
 
-	if err != nil {
-		return buf, err
-	}
+	// Read at most readN bytes. The buffer grows with the data actually
+	// received, so a bogus size in the header can not cause a huge allocation.
+	buf, _ := io.ReadAll(io.LimitReader(reader, int64(readN)))
+	n := len(buf)
 
 	end, err := reader.ReadString('\n')
 	switch {
